@@ -51,6 +51,7 @@ class RunCtx(object):
         self.violation = None       # first violation: dict(sig, detail)
         self.noactor = {}
         self.check_context = cfg.get("check_context", True)
+        self.faulty_values = bool(cfg.get("p_bad") or cfg.get("p_ser_raise") or cfg.get("p_omit"))
         self.ctx_checks = 0
         self.api_calls = 0
         self.custom_ops = {}
@@ -64,13 +65,14 @@ class RunCtx(object):
         self.extractor_raises = set()
         self.async_mode = False
         self.aborted = False
+        self.skipped = None
         self.trace = []             # cheap event log for the digest
         self.info = {}
 
     # ------------------------------------------------------------- reporting
-    def fail(self, kind, detail="", **attrs):
+    def fail(self, _kind, _detail="", **attrs):
         if self.violation is None:
-            self.violation = {"sig": fmt_sig(self.prop, kind, attrs), "detail": detail[:2000]}
+            self.violation = {"sig": fmt_sig(self.prop, _kind, attrs), "detail": _detail[:2000]}
         if self.sched is not None and self.sched.abort is None:
             self.sched.abort = "violation"
 
@@ -179,9 +181,32 @@ class Tap(object):
         r = Rec(rc.stamp(), rc.actor_name(), rc.current_call(),
                 safe_copy(message) if self.deep else dict(message))
         self.records.append(r)
+        report_guard(rc, message)
 
     def __repr__(self):
         return "<Tap %s>" % self.name
+
+
+def report_guard(rc, message):
+    """A failure report about a failure report means the recursion guard of
+    Destinations.send is gone: message sizes then double per level and the
+    call never returns.  C07/C08 flag it; other properties cannot be decided
+    on such a run (it is aborted and counted as skipped)."""
+    try:
+        if message.get("message_type") != "eliot:destination_failure":
+            return
+        inner = message.get("message")
+        if not (isinstance(inner, str) and "eliot:destination_failure" in inner):
+            return
+    except BaseException:  # noqa
+        return
+    if rc.cfg.get("recursion_guard", "skip") == "violation":
+        rc.fail("report_about_report", "a destination failure while delivering a failure report was itself reported")
+    else:
+        rc.skipped = "report recursion"
+        if rc.sched is not None and rc.sched.abort is None:
+            rc.sched.abort = "skipped"
+    raise SimAbort("report recursion")
 
 
 class DestBoom(Exception):
@@ -191,6 +216,13 @@ class DestBoom(Exception):
 class DestBoomStr(Exception):
     def __str__(self):
         raise ValueError("no str")
+
+
+class DestBoomNoModule(Exception):
+    """An exception class whose __module__ is None ("None if unavailable")."""
+
+
+DestBoomNoModule.__module__ = None
 
 
 class FaultyDest(object):
@@ -238,6 +270,7 @@ class FaultyDest(object):
         self.calls += 1
         r = Rec(rc.stamp(), rc.actor_name(), rc.current_call(), safe_copy(message))
         self.records.append(r)
+        report_guard(rc, message)
         if self._should_raise(message):
             rc.count_fault("dest_raise")
             ek = self.exc_kind
@@ -247,6 +280,8 @@ class FaultyDest(object):
                 e = OSError(28, "disk full %s" % self.name)
             elif ek == 2:
                 e = DestBoomStr()
+            elif ek == 4:
+                e = DestBoomNoModule("no module %s" % self.name)
             else:
                 e = KeyError("k%d" % self.calls)
             r.raised = e
